@@ -27,6 +27,9 @@ mod script;
 mod nested;
 
 const NSLOTS: usize = 3;
+/// Rust-side iterators (`List<T>::into_iter`) that may be alive at once; in the
+/// Lean model iterator `k` keeps its handle in variable `NSLOTS + k`
+const NITERS: usize = 2;
 /// time limit of a single operation (the machine may be heavily loaded)
 const OP_LIMIT_MS: u64 = 8_000;
 
@@ -331,6 +334,12 @@ pub enum Op {
     /// script `for x in l { out.push(x); if i == k { <body> } i = i + 1; }` over
     /// the handle `h` (the function's variable `l`); the result is `out`
     ForDo(usize, u64, Body),
+    /// Rust: iterator `k` = `h.clone().into_iter()` (kept alive across the following operations)
+    ItNew(usize, usize),
+    /// Rust: `next()` of iterator `k`
+    ItNext(usize),
+    /// Rust: iterator `k` is dropped
+    ItDrop(usize),
 }
 
 /// what the body of a script `for` does during iteration `k`. `o` is a second
@@ -408,6 +417,9 @@ impl Op {
             Op::ForDo(_, _, Body::RebindField(_)) => "for-rebind-field",
             Op::ForDo(_, _, Body::Push(..)) => "for-push",
             Op::ForDo(_, _, Body::Swap(..)) => "for-swap",
+            Op::ItNew(..) => "iter-new",
+            Op::ItNext(_) => "iter-next",
+            Op::ItDrop(_) => "iter-drop",
         }
     }
     /// what the issuer really runs: a script collects with a `for` loop
@@ -445,6 +457,9 @@ impl Op {
             ),
             // not one operation of the model: see `Case::lean_marked`
             Op::ForDo(..) => "fb".into(),
+            Op::ItNew(k, h) => format!("in:{}:{h}", NSLOTS + k),
+            Op::ItNext(k) => format!("ix:{}", NSLOTS + k),
+            Op::ItDrop(k) => format!("id:{}", NSLOTS + k),
         }
     }
     fn text(&self, via: Via) -> String {
@@ -452,6 +467,9 @@ impl Op {
             Op::Eq(a, b) => format!("=:{a}:{b}"),
             Op::Join(h, k) => format!("j:{h}:{k}"),
             Op::ForDo(h, k, b) => format!("fb:{h}:{k}:{}", b.text()),
+            Op::ItNew(k, h) => format!("in:{k}:{h}"),
+            Op::ItNext(k) => format!("ix:{k}"),
+            Op::ItDrop(k) => format!("id:{k}"),
             o => o.lean(Via::Rust),
         };
         match via {
@@ -494,6 +512,9 @@ impl Op {
             ("it", 2) => Op::Iter(h(1)?),
             ("j", 2) => Op::Join(h(1)?, 0),
             ("j", 3) => Op::Join(h(1)?, h(2).filter(|k| *k < SEPS.len())?),
+            ("in", 3) => Op::ItNew(h(1).filter(|k| *k < NITERS)?, h(2)?),
+            ("ix", 2) => Op::ItNext(h(1).filter(|k| *k < NITERS)?),
+            ("id", 2) => Op::ItDrop(h(1).filter(|k| *k < NITERS)?),
             ("fb", 5) if p[3] == "r" => Op::ForDo(h(1)?, n(2)?, Body::Rebind(h(4)?)),
             ("fb", 5) if p[3] == "c" => Op::ForDo(h(1)?, n(2)?, Body::RebindConcat(h(4)?)),
             ("fb", 4) if p[3] == "n" => Op::ForDo(h(1)?, n(2)?, Body::RebindNew),
@@ -504,9 +525,11 @@ impl Op {
         };
         Some((op, via))
     }
-    /// slots that must be bound / the slot that gets bound
+    /// slots that must be bound / the slot that gets bound (iterator `k` counts as slot `NSLOTS + k`)
     fn uses(&self) -> (Vec<usize>, Option<usize>) {
         match *self {
+            Op::ItNew(k, h) => (vec![h], Some(NSLOTS + k)),
+            Op::ItNext(k) | Op::ItDrop(k) => (vec![NSLOTS + k], None),
             Op::New(d) | Op::FromVec(d, _) => (vec![], Some(d)),
             Op::CloneH(d, s) => (vec![s], Some(d)),
             Op::Concat(d, a, b) => (vec![a, b], Some(d)),
@@ -541,8 +564,20 @@ impl Case {
     fn text(&self) -> String {
         self.ops.iter().map(|(o, v)| o.text(*v)).collect::<Vec<_>>().join(" ")
     }
+    fn has_iters(&self) -> bool {
+        self.ops.iter().any(|(o, _)| matches!(o, Op::ItNew(..) | Op::ItNext(_) | Op::ItDrop(_)))
+    }
     fn lean(&self, size: usize) -> String {
         let f = if self.etype == "f64" { "f" } else { "" };
+        if self.has_iters() {
+            // histories with live Rust-side iterators: `RotoV.ListM.istep`; the iterators' own
+            // handle variables come after the NSLOTS that are shown
+            return format!(
+                "c15 runi{f} {size} {NSLOTS} {} {}",
+                NSLOTS + NITERS,
+                self.ops.iter().map(|(o, v)| o.lean(*v)).collect::<Vec<_>>().join(" ")
+            );
+        }
         format!(
             "c15 run{f} {size} {NSLOTS} {}",
             self.ops.iter().map(|(o, v)| o.lean(*v)).collect::<Vec<_>>().join(" ")
@@ -652,20 +687,28 @@ impl Case {
     }
     /// every operation only touches bound handles (expressible in Rust / Roto)
     fn valid(&self) -> bool {
-        let mut bound = [false; NSLOTS];
+        let mut bound = [false; NSLOTS + NITERS];
+        let loops = self.has_loops();
         for (op, via) in &self.ops {
             let (need, binds) = op.uses();
-            if need.iter().any(|h| *h >= NSLOTS || !bound[*h]) {
+            if need.iter().any(|h| *h >= NSLOTS + NITERS || !bound[*h]) {
                 return false;
             }
             if let Op::DropH(h) = op {
                 bound[*h] = false;
             }
+            if let Op::ItDrop(k) = op {
+                bound[NSLOTS + *k] = false;
+            }
             if let Some(d) = binds {
-                if d >= NSLOTS {
+                if d >= NSLOTS + NITERS {
                     return false;
                 }
                 bound[d] = true;
+            }
+            // iterators are a Rust-side thing; one model run has either lowered loops or iterators
+            if matches!(op, Op::ItNew(..) | Op::ItNext(_) | Op::ItDrop(_)) && (*via != Via::Rust || loops) {
+                return false;
             }
             if matches!(op, Op::Join(..)) && (self.etype != "String" || *via != Via::Script) {
                 return false;
@@ -738,12 +781,14 @@ impl PartialEq for W {
 
 struct Reference {
     slots: Vec<Option<RefList>>,
+    /// live iterators: the shared vector walked and the cursor into it
+    iters: Vec<Option<(RefList, usize)>>,
     same: fn(u64, u64) -> bool,
 }
 
 impl Reference {
     fn new(same: fn(u64, u64) -> bool) -> Self {
-        Reference { slots: vec![None; NSLOTS], same }
+        Reference { slots: vec![None; NSLOTS], iters: vec![None; NITERS], same }
     }
     fn typed(&self, h: usize) -> Vec<W> {
         self.get(h).borrow().iter().map(|x| W(*x, self.same)).collect()
@@ -784,7 +829,7 @@ impl Reference {
     }
     /// how many elements that loop visits (on a copy: nothing changes)
     fn walk_len(&self, h: usize, k: u64, body: &Body) -> u64 {
-        let mut copy = Reference { slots: vec![], same: self.same };
+        let mut copy = Reference { slots: vec![], iters: vec![None; NITERS], same: self.same };
         // same aliasing structure, copied vectors
         let mut seen: Vec<(*const RefCell<Vec<u64>>, RefList)> = vec![];
         for s in &self.slots {
@@ -860,6 +905,25 @@ impl Reference {
                 show_str(&v.join(SEPS[*k]))
             }
             Op::ForDo(h, k, body) => format!("v{}", nats(&self.walk(*h, *k, body))),
+            // the property: an iterator is a cursor into the ONE shared vector — `next` is the
+            // element at the cursor of the vector as it is now (`None` past its end, and again
+            // an element once the vector has grown), the cursor moves on iff there was one
+            Op::ItNew(k, h) => {
+                self.iters[*k] = Some((self.get(*h), 0));
+                "u".into()
+            }
+            Op::ItNext(k) => {
+                let (l, c) = self.iters[*k].as_mut().expect("live iterator");
+                let x = l.borrow().get(*c).copied();
+                if x.is_some() {
+                    *c += 1;
+                }
+                show_opt(x)
+            }
+            Op::ItDrop(k) => {
+                self.iters[*k] = None;
+                "u".into()
+            }
         }
     }
     fn observe(&self, out: String) -> Rec {
@@ -867,6 +931,14 @@ impl Reference {
         let mut seen: Vec<*const RefCell<Vec<u64>>> = vec![];
         let mut live = 0i64;
         let mut slots = vec![];
+        // a live iterator keeps its vector alive
+        for (l, _) in self.iters.iter().flatten() {
+            let p = Rc::as_ptr(l);
+            if !seen.contains(&p) {
+                seen.push(p);
+                live += l.borrow().len() as i64;
+            }
+        }
         for s in &self.slots {
             match s {
                 None => slots.push(None),
@@ -921,6 +993,7 @@ where
     T::Transformed: PartialEq,
 {
     slots: Vec<Option<List<T>>>,
+    iters: Vec<Option<<List<T> as IntoIterator>::IntoIter>>,
     script: Option<script::Funcs<T>>,
 }
 
@@ -929,7 +1002,7 @@ where
     T::Transformed: PartialEq,
 {
     fn new(script: Option<script::Funcs<T>>) -> Self {
-        Impl { slots: (0..NSLOTS).map(|_| None).collect(), script }
+        Impl { slots: (0..NSLOTS).map(|_| None).collect(), iters: (0..NITERS).map(|_| None).collect(), script }
     }
     fn h(&self, h: usize) -> &List<T> {
         self.slots[h].as_ref().expect("bound")
@@ -1006,6 +1079,16 @@ where
                 format!("v{}", nats(&v))
             }
             Op::Join(..) | Op::ForDo(..) => "unsupported".into(),
+            Op::ItNew(k, h) => {
+                let it = self.h(*h).clone().into_iter();
+                self.iters[*k] = Some(it);
+                "u".into()
+            }
+            Op::ItNext(k) => show_opt(self.iters[*k].as_mut().expect("live iterator").next().map(|x| x.val())),
+            Op::ItDrop(k) => {
+                self.iters[*k] = None;
+                "u".into()
+            }
         }
     }
     fn observe(&self, out: String) -> Rec {
@@ -1306,6 +1389,12 @@ fn alphabet(ns: usize) -> Vec<Op> {
             }
         }
     }
+    // a Rust-side iterator that stays alive between the letters
+    for h in 0..ns {
+        a.push(Op::ItNew(0, h));
+    }
+    a.push(Op::ItNext(0));
+    a.push(Op::ItDrop(0));
     a
 }
 
@@ -1362,6 +1451,10 @@ fn random_case(etype: &'static str, seed: u64, idx: u64, via_mode: u64) -> Case 
     let mut bound = [false; NSLOTS];
     let mut lens = [0u64; NSLOTS]; // rough, only to aim indices
     let mut ops = vec![];
+    // a third of the histories keep Rust-side iterators alive between their operations
+    // (those have no script loop with a body: one model run has either)
+    let with_iters = p.chance(1, 3);
+    let mut it_live = [false; NITERS];
     let val = |p: &mut Prng| -> u64 {
         match etype {
             "Tk0" => 0,
@@ -1394,6 +1487,20 @@ fn random_case(etype: &'static str, seed: u64, idx: u64, via_mode: u64) -> Case 
         let h = *p.pick(&any);
         let h2 = *p.pick(&any);
         let d = p.below(NSLOTS as u64) as usize;
+        if with_iters && via == Via::Rust && p.chance(1, 4) {
+            let k = p.below(NITERS as u64) as usize;
+            let op = if !it_live[k] || p.chance(1, 8) {
+                it_live[k] = true;
+                Op::ItNew(k, h)
+            } else if p.chance(1, 10) {
+                it_live[k] = false;
+                Op::ItDrop(k)
+            } else {
+                Op::ItNext(k)
+            };
+            ops.push((op, via));
+            continue;
+        }
         let idx = |p: &mut Prng, len: u64| -> u64 {
             match p.below(10) {
                 0 => len,
@@ -1460,7 +1567,7 @@ fn random_case(etype: &'static str, seed: u64, idx: u64, via_mode: u64) -> Case 
         };
         let op = if etype == "Tk0" && via == Via::Script && known_tk0_for(&op) { Op::Len(h) } else { op };
         // script loops with a body: the variable is rebound / the walked list is changed through an alias
-        let op = if via == Via::Script && matches!(op, Op::Len(_) | Op::Capacity(_) | Op::IsEmpty(_) | Op::ToVec(_) | Op::Iter(_)) && p.chance(1, 2) {
+        let op = if !with_iters && via == Via::Script && matches!(op, Op::Len(_) | Op::Capacity(_) | Op::IsEmpty(_) | Op::ToVec(_) | Op::Iter(_)) && p.chance(1, 2) {
             let k = p.below(lens[h].max(1) + 1);
             let body = match p.below(8) {
                 0 | 1 => Body::Rebind(h2),
@@ -1482,12 +1589,52 @@ fn random_case(etype: &'static str, seed: u64, idx: u64, via_mode: u64) -> Case 
     Case { etype, ops }
 }
 
+/// Class representatives for Rust-side iteration INTERLEAVED with operations through
+/// aliases: an iterator (`List::into_iter`) stays alive while the list it walks grows /
+/// is permuted through another Rust handle or through a script, while the variable it
+/// was made from is rebound or dropped, next to a second iterator over the same list;
+/// a walk over a list that starts empty; `next` again after `None`. One minimal
+/// history per shape, independent of the seed, first in every run.
+fn iterator_cases(etype: &'static str) -> Vec<String> {
+    let z = etype == "Tk0";
+    let v = |x: u64| if z { 0 } else { x };
+    let mut t = vec![
+        // the list grows through another Rust handle during the walk (a work queue)
+        format!("f:0:{},{} c:1:0 in:0:0 ix:0 p:1:{} p:1:{} ix:0 ix:0 ix:0 ix:0 id:0 v:0", v(1), v(2), v(10), v(11)),
+        // a walk over a list that starts empty; `next` after `None` once the list has grown
+        format!("n:0 in:0:0 ix:0 p:0:{} ix:0 ix:0 p:0:{} ix:0 ix:0 id:0", v(7), v(8)),
+        // the iterator keeps the list alive after every handle is gone
+        format!("f:0:{},{} in:0:0 d:0 ix:0 ix:0 ix:0 id:0", v(1), v(2)),
+        // two iterators over one list, a swap through the handle, the handle rebound to a concatenation
+        format!(
+            "f:0:{},{},{} in:0:0 in:1:0 ix:0 s:0:0:2 ix:1 ix:0 +:0:0:0 ix:0 ix:0 p:0:{} ix:0 ix:1 ix:1 ix:1 id:0 id:1 v:0",
+            v(1), v(2), v(3), v(9)
+        ),
+        // an iterator made anew over another list while alive; a one-shot walk next to it
+        format!("f:0:{} f:1:{},{} in:0:0 ix:0 in:0:1 ix:0 it:1 ix:0 ix:0 id:0", v(1), v(2), v(3)),
+        // growth across a capacity boundary (reallocation) under a live iterator
+        format!(
+            "f:0:{},{},{},{},{},{},{},{} in:0:0 ix:0 ix:0 p:0:{} ix:0 ix:0 ix:0 ix:0 ix:0 ix:0 ix:0 ix:0 id:0 k:0",
+            v(1), v(2), v(3), v(4), v(5), v(6), v(7), v(8), v(9)
+        ),
+    ];
+    if script::AVAILABLE {
+        // the list grows through a script during the walk; a script-built list walked from Rust;
+        // the script's own `for` over the same list while the Rust iterator is alive
+        t.push(format!("f:0:{},{} in:0:0 ix:0 p:0:{}@s ix:0 ix:0 ix:0 id:0 v:0@s", v(1), v(2), v(10)));
+        t.push(format!("f:0:{}@s in:0:0 p:0:{}@s ix:0 it:0@s ix:0 +:1:0:0@s ix:0 p:0:{} ix:0 id:0", v(1), v(2), v(3)));
+        t.push(format!("n:0@s in:0:0 ix:0 p:0:{}@s ix:0 ix:0 d:0@s ix:0 id:0", v(7)));
+    }
+    t
+}
+
 /// fixed histories run first: growth boundaries, self-concatenation, aliasing,
 /// equality of distinct / aliased / same handles
 fn boundary_cases(etype: &'static str) -> Vec<Case> {
     let z = etype == "Tk0";
     let v = |x: u64| if z { 0 } else { x };
-    let mut texts: Vec<String> = vec![
+    let mut texts: Vec<String> = iterator_cases(etype);
+    texts.extend(vec![
         // the pinned tree's defect: == between two distinct lists
         format!("f:0:{} f:1:{} =:0:1 =:1:0 =:0:0", v(1), v(1)),
         format!("f:0:{} f:1:{} =:0:1", v(1), v(2)),
@@ -1500,7 +1647,7 @@ fn boundary_cases(etype: &'static str) -> Vec<Case> {
         // get edges
         format!("f:0:{} g:0:0 g:0:1 g:0:18446744073709551615 n:1 g:1:0", v(7)),
         "n:0 e:0 k:0 l:0 it:0 v:0 +:1:0:0 e:1 k:1".into(),
-    ];
+    ]);
     // growth: push across every power of two up to 130 and watch the capacity
     let mut grow = String::from("n:0");
     for i in 0..130u64 {
@@ -1703,7 +1850,11 @@ fn space(tier: &str) -> &'static Space {
                         .iter()
                         .map(|o| {
                             let (need, binds) = o.uses();
-                            let unbinds = if let Op::DropH(h) = o { Some(*h) } else { None };
+                            let unbinds = match o {
+                                Op::DropH(h) => Some(*h),
+                                Op::ItDrop(k) => Some(NSLOTS + *k),
+                                _ => None,
+                            };
                             (need, binds, unbinds)
                         })
                         .collect();
@@ -1720,7 +1871,7 @@ impl Block {
     /// sequence number `k` (mixed radix): None when it touches an unbound handle
     fn case(&self, mut k: u64) -> Option<Case> {
         let a = self.alpha.len() as u64;
-        let mut bound = [false; NSLOTS];
+        let mut bound = [false; NSLOTS + NITERS];
         let mut digits = [0usize; 8];
         for i in 0..self.len {
             let d = (k % a) as usize;
@@ -1736,6 +1887,10 @@ impl Block {
             if matches!(self.alpha[d], Op::Join(..) | Op::ForDo(..)) && via_of(self.via_mode, i) != Via::Script {
                 return None;
             }
+            // … and a Rust-side iterator on the Rust side only
+            if matches!(self.alpha[d], Op::ItNew(..) | Op::ItNext(_) | Op::ItDrop(_)) && via_of(self.via_mode, i) != Via::Rust {
+                return None;
+            }
             if let Some(h) = unbinds {
                 bound[*h] = false;
             }
@@ -1749,7 +1904,12 @@ impl Block {
                 (self.alpha[digits[i]].clone(), via_of(self.via_mode, i))
             })
             .collect();
-        Some(Case { etype: self.etype, ops })
+        let c = Case { etype: self.etype, ops };
+        // one model run has either lowered script loops or live iterators
+        if c.has_loops() && c.has_iters() {
+            return None;
+        }
+        Some(c)
     }
 }
 
@@ -1891,7 +2051,7 @@ fn class_of(case: &Case, recs: &[Rec], rep: &mut Report) {
             _ => String::new(),
         };
         let bound = r.slots.iter().filter(|s| s.is_some()).count();
-        let lenb = match op.uses().0.first().and_then(|h| r.slots[*h].as_ref()) {
+        let lenb = match op.uses().0.first().and_then(|h| r.slots.get(*h)).and_then(|s| s.as_ref()) {
             Some((l, _, _)) => match *l {
                 0 => "0",
                 1..=4 => "1-4",
